@@ -812,7 +812,7 @@ func CheckC05(rr *RunResult, res *vprop.Result) {
 			// "and never again after an attempt succeeds or returns a permanent error"
 			for k := 0; k+1 < len(invs); k++ {
 				o := invs[k].Out
-				if invs[k].Exit >= 0 && (o.EngineSuccess() || o == Permanent || o == WrongType || o == WrongTypeErr) {
+				if invs[k].Exit >= 0 && (o.EngineSuccess() || o == Permanent || o == WrongType || o == WrongTypeErr || o == RespAndPermErr) {
 					res.Fail("C05/invoked-after-final", "%s: invocation #%d happened after #%d ended with %s", r.Tag(), invs[k+1].N, invs[k].N, o)
 					return
 				}
@@ -887,6 +887,16 @@ func CheckC05(rr *RunResult, res *vprop.Result) {
 				}
 				if at.Err != nil {
 					res.Fail("C05/attempt-content", "%s attempt %d: plugin returned (nil,nil), attempt has error %q", r.Tag(), k, at.Err.Message)
+					return
+				}
+			case RespAndErr, RespAndPermErr:
+				// the plugin returned a well-typed response AND an error: "carrying the plugin's response or error" — the
+				// error must be recorded (the attempt failed); whether the response is kept next to it is not stated
+				if overran && at.Err != nil && !at.Err.Permanent {
+					continue
+				}
+				if at.Err == nil || at.Err.Message != ErrMsg(r.Tag(), inv.N, 0) || at.Err.Permanent != (st.Out == RespAndPermErr) {
+					res.Fail("C05/attempt-content", "%s attempt %d: plugin returned a response together with an error (%s), attempt has err=%v", r.Tag(), k, st.Out, at.Err)
 					return
 				}
 			case Transient, Permanent:
